@@ -25,12 +25,13 @@ CLS_FOR = {"GA": ["Item:plain", "Item:set", "Item:boom", "Model:plain", "Ref:pla
 INPUTS = {
     "GA": ["A item x = 1; ref x;", "A item x = 1; item y = 22; ref y; ref x;", "A item x = 1; ref zz;", "A item x = 1 ref x;",
            "A item bad = 3;", "A item boom = 3; item k = 1;", "A item mperr = 1;", "A item perr = 2; ref perr;", "",
-           "A item x = 1; item x = 2; ref x;"],
+           "A item x = 1; item x = 2; ref x;", "A item y = 5; ref x;"],
     "GB": ["item a 5", "item a 3.5 !", "5", "'str'", "item", "item a b", "item boom 1", "item bad 2.0"],
     "GC": ["C 1, 2.5, 'x', abc opt 12", "C 1 # comment\n, two", "C 1,, 2", "C 'a' opt true", "C x opt 3.0e1", "C 1 opt"],
     "GD": ['import "lib.gd"; item m; ref a; ref m;', 'import "lib2.gd"; ref c; ref c;', 'import "lib.gd"; ref zz;',
            'import "broken.gd"; item q;', 'import "missing.gd"; item q;', "item p = 2.0; ref p;",
-           'import "cyc.gd"; item r; ref s;', "item ; ", 'import "lib.gd"; item mperr; ref b;', 'import "lib.gd"; item bad; ref a;'],
+           'import "cyc.gd"; item r; ref s;', "item ; ", 'import "lib.gd"; item mperr; ref b;', 'import "lib.gd"; item bad; ref a;',
+           "item y; ref p;"],
     "GE": ["12", "true", "item a 3", "3.5", "item a x", "item boom 4"],
 }
 EXTRA_FILES = {"lib.gd": "item a = 1.5; item b;", "lib2.gd": 'import "lib.gd"; item c;', "broken.gd": "item ;",
@@ -129,6 +130,10 @@ def make_pool(r, n):
         pool.append(rand_cfg(r, g))
     while len(pool) < n:
         pool.append(rand_cfg(r))
+    gd = next(c for c in pool if c["g"] == "GD")      # always one multi-file configuration with a global repository
+    gd["repo"] = True
+    if r.chance(0.5):
+        gd["classes"] = sorted(set(gd.get("classes", []) + ["Model:plain"]))
     twins = []
     for base in r.sample([c for c in pool if c.get("classes")] or pool, 2):
         twin = dict(base)           # same grammar and the same (shared) user classes, other options
@@ -419,13 +424,24 @@ def model_state_fields(text, ss, cs):
     for s, x in zip(ss, parts["S"].split(",")):
         if x != "-":
             a = x.split(":")
+            stale = a[3].endswith("!stale")
+            a[3] = a[3].replace("!stale", "")
             if a[3] not in ("x", ""):
                 a[3] = ".".join(str(i) for i in sorted(int(t) for t in a[3].split(".")))
-            x = ":".join(a)
+            x = ":".join(a) + ("!stale" if stale else "")
         f["S%d" % s] = x
     for c, x in zip(cs, parts["K"].split(",") if parts["K"] else []):
         f["K%d" % c] = x
     return f
+
+
+def store_only_lower(key, m, i):
+    """per-object storage is keyed by id(obj): an entry left by a failed load can be overwritten when a later object
+    reuses the address, so the implementation may hold fewer (never more, never none) entries than the model's sum"""
+    if not key.startswith("K") or m is None:
+        return False
+    a, b = m.split(":"), i.split(":")
+    return a[0] == b[0] and a[2] == b[2] and 0 < int(b[1]) < int(a[1])
 
 
 # ------------------------------------------------------------------ the check
@@ -524,7 +540,7 @@ def evaluate(chk, cases, failures, disagreements, spawn_check=0):
             imf = impl_state_fields(c, outs, j, ss, cs, born)
             r = o["res"]
             want = "N" if r.get("ok") == "noslot" else ("C" if c["ops"][j]["op"] == "new" else "L") + str(ids.get(r))
-            diffs = [k for k in imf if mf.get(k) != imf[k]]
+            diffs = [k for k in imf if mf.get(k) != imf[k] and not store_only_lower(k, mf.get(k), imf[k])]
             if mf["out"] != want:
                 diffs.append("result")
             if diffs:
